@@ -5,6 +5,7 @@ EXTENDS KV
 
 \* key alphabets (sorted byte-lexicographically)
 KeysSmall == << <<0>>, <<0, 0>>, <<0, 255>>, <<255>> >>
+\* keys are non-empty: juno always prefixes a bucket byte (the empty key is probed separately, see checks/C15.py)
 KeysFull == << <<0>>, <<0, 0>>, <<0, 255>>, <<1>>, <<255>>, <<255, 255>> >>
 PrefixesSmall == { <<>>, <<0>>, <<255>> }
 PrefixesFull == { <<>>, <<0>>, <<0, 0>>, <<0, 255>>, <<1>>, <<255>>, <<255, 255>> }
